@@ -304,7 +304,7 @@ reg(Kge("kge", entry="moments"))
 # ------------------------------------------------------------------------------------------
 # input generation shared by the generic properties
 # ------------------------------------------------------------------------------------------
-def gen_arrays(rng, fn, nan_p=None, weights=None, angles=False, same_dims=False):
+def gen_arrays(rng, fn, nan_p=None, weights=None, angles=False, same_dims=False, inf_p=0.0):
     """-> (arrs, w, sizes).  obs / weights live on random subsets of the forecast dims (weights possibly with an extra dim)."""
     sizes = gens.rand_sizes(rng)
     if nan_p is None:
@@ -320,6 +320,19 @@ def gen_arrays(rng, fn, nan_p=None, weights=None, angles=False, same_dims=False)
     obs = mk(odims, nan_p if rng.random() < 0.6 else 0.0)
     if rng.random() < 0.5 and not angles:
         obs = gens.force_ties(rng, fcst, obs)
+    if inf_p and not angles and rng.random() < inf_p:
+        # infinite values are valid data (not missing): one or two of them in the forecast and / or the observation
+        def sprinkle(a):
+            v = a.values.copy()
+            for _ in range(rng.randint(1, 2)):
+                if v.size:
+                    v.flat[rng.randrange(v.size)] = rng.choice([float("inf"), float("-inf")])
+            return a.copy(data=v)
+        which = rng.choice(["f", "o", "fo"])
+        if "f" in which:
+            fcst = sprinkle(fcst)
+        if "o" in which:
+            obs = sprinkle(obs)
     if fn.three:
         width = gens.rand_da(rng, sizes, dims=list(fcst.dims), lo=0, hi=4, shuffle=False)
         upper = (fcst + width.assign_coords({d: fcst[d] for d in fcst.dims})).transpose(*fcst.dims)
